@@ -5,10 +5,12 @@ package harness
 
 import (
 	"context"
+	"crypto/tls"
 	"fmt"
 	"net"
 	"net/url"
 	"strings"
+	"time"
 
 	"github.com/fluffle/goirc/client"
 	"github.com/fluffle/goirc/logging"
@@ -22,6 +24,21 @@ type vdialer struct{}
 func (vdialer) Dial(network, addr string) (net.Conn, error) { return vx.Dial(addr) }
 func (vdialer) DialContext(ctx context.Context, network, addr string) (net.Conn, error) {
 	return vx.Dial(addr)
+}
+
+// FailingTLS is a TLS client configuration whose handshake bytes are the same in every run (constant
+// "randomness", fixed clock), for scenarios in which the handshake fails.
+func FailingTLS() *tls.Config {
+	return &tls.Config{InsecureSkipVerify: true, Rand: zeroReader{}, Time: func() time.Time { return time.Unix(1700000000, 0) }}
+}
+
+type zeroReader struct{}
+
+func (zeroReader) Read(p []byte) (int, error) {
+	for i := range p {
+		p[i] = 0
+	}
+	return len(p), nil
 }
 
 type capLogger struct{}
